@@ -1610,6 +1610,8 @@ def run(ctx, rep):
     r06y(ctx, rep)
     r06s(ctx, rep)
     r06v(ctx, rep)
+    from . import runloop as _rl
+    _rl.r06h(ctx, rep)
     # R06v: the n-ary list walks of the prelude need a list to end on
     from . import C14
     sub = type(rep)(rep.prop)
